@@ -78,7 +78,7 @@ def bvh_part(R, tier, wd, replay=None):
         key = "%s:%s" % (name, detail)
         R.violation(key, "%s fails at trace line %d: %s" % (name, line, json.dumps({k: v for k, v in e.items() if k != "boxes"})[:300]),
                     {"requests": [reqs[e["req"]]] if "req" in e else [], "obligation": name, "part": "bvh"})
-    if replay is None:
+    if replay is None and not R.violations:
         # negative control: flip one accelerated answer; drop one attach event
         ev = copy.deepcopy(events)
         desc = None
